@@ -27,6 +27,11 @@ func checkC15(c *Ctx) {
 	r153(c)
 	r154(c, "R15.4 failed-request-leaves-nothing-behind")
 	r155(c, "R15.5 late-failure-stays-visible")
+	// a response buffer's spill file is released on every way out of the middleware, a target dying mid-body included
+	// (shared with C14)
+	r141(c, "R15.7 spill-file-pairing")
+	// an error page for a target that failed before sending anything must not find the status already committed
+	rSendNoEmptyWrite(c, "R15.8 nothing-written-when-nothing-buffered")
 	// the target timeout (what turns a silent target into a 504) is a per-service setting that outlives the process
 	persistedFields(c, "R15.6 target-settings-survive-restart", "TargetOptions", nil)
 }
